@@ -67,7 +67,10 @@ ASSUMPTIONS = [
 TOL = 1e-9
 SINGLE = ["h", "x", "y", "z", "s", "sdg", "t", "tdg", "sx"]
 ROT = ["rx", "ry", "rz", "p"]
-SPECIAL_ANGLES = [0.0, math.pi, -math.pi, math.pi / 2, 2 * math.pi, math.pi / 4, -math.pi / 3, 1e-9]
+SPECIAL_ANGLES = [0.0, math.pi, -math.pi, math.pi / 2, 2 * math.pi, math.pi / 4, -math.pi / 3, 1e-9,
+                  # angles that coincide with a special value after rounding to a few decimals, but not as rotations
+                  4e-4, 1e-4, -3e-4, 2 * math.pi + 3e-4, -2 * math.pi + 4.5e-4, 4 * math.pi + 4e-4, math.pi - 3e-4,
+                  math.pi / 2 + 4e-4, 2e-6]
 
 
 # ------------------------------------------------------------------ generation
@@ -415,6 +418,16 @@ def directed_cases() -> list[dict]:
                 g = "ccx" if (k + sum(tri)) % 2 else "ccz"
                 pre = [["h", [tri[1]], None], ["ry", [tri[0]], 0.7]] if k % 2 else []
                 out.append({"n": n, "aps": True, "instrs": [*pre, [g, list(qs), None]]})
+    # rotations by angles that differ from a whole number of turns (or from pi, pi/2) only in the 4th decimal and beyond
+    for g in ROT:
+        for th in (4e-4, 2 * math.pi + 3e-4, -2 * math.pi + 4.5e-4, math.pi - 3e-4):
+            out.append({"n": 1, "aps": g in ("rx", "p"), "instrs": [["h", [0], None], [g, [0], th], ["h", [0], None]]})
+        out.append({"n": 2, "aps": True, "instrs": [["h", [0], None], [g, [0], 3e-4], ["cx", [0, 1], None], [g, [1], -2e-4]]})
+    # two entangling gates that meet on the same qubits only through a swap in between (post-selection analysis)
+    for g1 in ("cx", "cz"):
+        for g2 in ("cx", "cz"):
+            for a, sw, b in (([0, 1], [1, 2], [0, 2]), ([1, 0], [0, 2], [2, 1]), ([0, 2], [2, 1], [1, 0]), ([1, 2], [0, 1], [2, 0])):
+                out.append({"n": 3, "aps": True, "instrs": [["h", [a[0]], None], [g1, a, None], ["swap", sw, None], [g2, b, None]]})
     for ins in ([["cx", [0, 1]], ["cx", [0, 1]]], [["cz", [0, 1]], ["h", [0]], ["cx", [1, 0]]],
                 [["cx", [0, 2]], ["cz", [2, 1]]], [["cx", [3, 0]]], [["cz", [0, 3]], ["cx", [1, 2]]]):
         for aps in (True, False):
@@ -664,6 +677,8 @@ def describe(case: dict) -> str:
         d = ""
         if isinstance(th, dict):
             d = "{" + ",".join(f"{k}={v}" for k, v in th.items() if k != "theta" or g in ROT) + "}"
+        elif isinstance(th, (int, float)):
+            d = f"[{th:.9g}]"
         return f"{g}{d}({','.join(map(str, q))})"
 
     extra = "".join(f", {k}={case[k]}" for k in ("regs", "global_phase", "call") if case.get(k) is not None)
